@@ -24,9 +24,12 @@ SPEC = dict(
         # systematic family: all programs "S1; S2" over a statement alphabet of 376 (141,752 programs), strided sample
         dict(family="tiny", n=(400, 30000), mc=dict(max_calls=10, after_end=1), invariants=FLOW),
     ],
-    ast=[("flowbig", 120, 2500), ("flow", 150, 2000)],
+    ast=[("flowbig", 120, 2500), ("flow", 150, 2000), ("huge", 12, 150)],
     cs=[dict(family="flowbig", n=(60, 400), paths=(4, 6), calls=45, layouts=True,
-             label="YarnTrace: random walks of big programs under random layouts")],
+             label="YarnTrace: random walks of big programs under random layouts"),
+        # scale: 12-24 nodes, 7 levels of nesting, groups of up to 13 options, lines of hundreds of characters, walks of 250 calls
+        dict(family="huge", n=(10, 80), paths=(2, 3), calls=250, layouts=True,
+             label="YarnTrace: long walks of very big programs under random layouts")],
     rule="systematic family `tiny` (every program S1;S2 over an alphabet of 376 statements built from 6 leaf statements, if / if-else with 3 "
          "condition kinds and option groups of 1-2 options over 10 small bodies: 141,752 programs; a strided sample per run, seed-dependent offset) "
          "and seeded random programs of the flow family (<=3 nodes, nesting <=3): ALL choice paths enumerated by TLC (MC_Runner) and replayed; "
